@@ -1,3 +1,180 @@
-From ST Require Import Base.Outcome Str.SliceSpec Str.SliceModel Str.SplitSpec Str.SplitModel.
-Theorem placeholder : True. Proof. exact I. Qed.
-Print Assumptions placeholder.
+(* Properties/C08.v — slicing returns the clamped byte range for every position, count and separator.
+   Statements only; proofs in Str/SliceProofs*.v.  Strings are list N; `fits s` = size s < 2^63 - 1
+   (a buffer of size + 1 bytes exists); `bytes_ok` = every unit < 256; start ranges over ALL of
+   ssize_t, count / n over ALL of size_t.  Every model equals `Ok spec`, hence in particular never
+   Fault OOBRead / AllocTooBig / Hang and never Abort (no_oob, no oversized allocation).         *)
+From Coq Require Import NArith ZArith List Bool.
+From ST Require Import Base.Outcome Base.Units Str.Model Str.SliceSpec Str.SliceModel
+     Str.SliceProofsBase Str.SliceProofsArith Str.SliceProofsTrim Str.SliceProofsFind Str.SliceProofsFront
+     Str.SliceProofsBA Str.SliceExamples.
+Import ListNotations.
+Local Open Scope N_scope.
+
+(* ---- substr / left / right: all start, all count ---- *)
+Theorem substr_is_spec s (start : Z) (count : N) :
+  fits s -> ssize_range start -> count < two64 ->
+  substr_model s start count = Ok (substr_spec s start count).
+Proof. exact (substr_model_spec s start count). Qed.
+Print Assumptions substr_is_spec.
+
+Theorem substr_length s start count :
+  length (substr_spec s start count) =
+  Z.to_nat (slice_end (Z.of_nat (length s)) (slice_begin (Z.of_nat (length s)) start) count
+            - slice_begin (Z.of_nat (length s)) start).
+Proof. exact (substr_spec_length s start count). Qed.
+Print Assumptions substr_length.
+
+Theorem left_is_spec s (n : N) : fits s -> n < two64 -> left_model s n = Ok (left_spec s n).
+Proof. exact (left_model_spec s n). Qed.
+Print Assumptions left_is_spec.
+
+Theorem right_is_spec s (n : N) : fits s -> n < two64 -> right_model s n = Ok (right_spec s n).
+Proof. exact (right_model_spec s n). Qed.
+Print Assumptions right_is_spec.
+
+Theorem substr_no_fault s start count :
+  fits s -> ssize_range start -> count < two64 -> safe (substr_model s start count).
+Proof. exact (substr_safe s start count). Qed.
+Print Assumptions substr_no_fault.
+
+Example substr_hypotheses_satisfiable :
+  fits abcd /\ ssize_range (-2)%Z /\ ssize_range (- Z.of_N two63)%Z /\ size_max - 1 < two64.
+Proof. exact ex_hyps_substr. Qed.
+Example substr_near_size_max : substr_model abcd 2%Z (size_max - 1) = Ok [99; 100].
+Proof. exact ex_substr_near_max. Qed.
+Example right_between_size_and_twice : right_model abcd 6 = Ok abcd.
+Proof. exact ex_right_between. Qed.
+
+(* ---- trim: charset is the C-string array (bytes, NUL, anything behind it) ---- *)
+Theorem trim_left_is_spec s charset k : fits s -> c_strlen charset = Ok k ->
+  trim_left_model s charset = Ok (trim_left_spec s (c_content charset)).
+Proof. exact (trim_left_model_spec s charset k). Qed.
+Print Assumptions trim_left_is_spec.
+
+Theorem trim_right_is_spec s charset k : fits s -> c_strlen charset = Ok k ->
+  trim_right_model s charset = Ok (trim_right_spec s (c_content charset)).
+Proof. exact (trim_right_model_spec s charset k). Qed.
+Print Assumptions trim_right_is_spec.
+
+Theorem trim_is_spec s charset k : fits s -> c_strlen charset = Ok k ->
+  trim_model s charset = Ok (trim_spec s (c_content charset)).
+Proof. exact (trim_model_spec s charset k). Qed.
+Print Assumptions trim_is_spec.
+
+Example trim_with_embedded_nul :
+  trim_model [32; 0; 65; 32; 0; 32] [32; 9; 0; 65] = Ok [0; 65; 32; 0] /\ c_strlen [32; 9; 0; 65] = Ok 2%nat.
+Proof. exact ex_trim. Qed.
+
+(* ---- the position functions of the spec are the least / greatest occurrence ---- *)
+Theorem first_occ_is_least ci sep h i : sep <> [] ->
+  (first_occ ci sep h = Some i <-> occurs_at ci h sep i /\ forall j, (j < i)%nat -> ~ occurs_at ci h sep j).
+Proof. exact (first_occ_least ci sep h i). Qed.
+Print Assumptions first_occ_is_least.
+
+Theorem last_occ_is_greatest ci sep h i : sep <> [] ->
+  (last_occ ci sep h = Some i <-> occurs_at ci h sep i /\ forall j, (i < j)%nat -> ~ occurs_at ci h sep j).
+Proof. exact (last_occ_greatest ci sep h i). Qed.
+Print Assumptions last_occ_is_greatest.
+
+Theorem no_occurrence ci sep h :
+  (first_occ ci sep h = None <-> sep = [] \/ forall j, ~ occurs_at ci h sep j) /\
+  (last_occ ci sep h = None <-> sep = [] \/ forall j, ~ occurs_at ci h sep j).
+Proof. exact (conj (first_occ_absent ci sep h) (last_occ_absent ci sep h)). Qed.
+Print Assumptions no_occurrence.
+
+(* ---- before / after: twelve overloads (the char8_t forms are reinterpret_casts of the const char* ones) ---- *)
+Theorem before_first_string cs s sep : fits s -> bytes_ok s = true -> bytes_ok sep = true ->
+  before_first_s cs s sep = Ok (before_first_spec (ci_of cs) s sep).
+Proof. exact (before_first_s_spec cs s sep). Qed.
+Print Assumptions before_first_string.
+Theorem after_first_string cs s sep : fits s -> bytes_ok s = true -> bytes_ok sep = true ->
+  after_first_s cs s sep = Ok (after_first_spec (ci_of cs) s sep).
+Proof. exact (after_first_s_spec cs s sep). Qed.
+Print Assumptions after_first_string.
+Theorem before_last_string cs s sep : fits s -> bytes_ok s = true -> bytes_ok sep = true ->
+  before_last_s cs s sep = Ok (before_last_spec (ci_of cs) s sep).
+Proof. exact (before_last_s_spec cs s sep). Qed.
+Print Assumptions before_last_string.
+Theorem after_last_string cs s sep : fits s -> bytes_ok s = true -> bytes_ok sep = true ->
+  after_last_s cs s sep = Ok (after_last_spec (ci_of cs) s sep).
+Proof. exact (after_last_s_spec cs s sep). Qed.
+Print Assumptions after_last_string.
+
+Theorem before_first_char cs s ch : fits s -> before_first_c cs s ch = Ok (before_first_spec (ci_of cs) s [ch]).
+Proof. exact (before_first_c_spec cs s ch). Qed.
+Print Assumptions before_first_char.
+Theorem after_first_char cs s ch : fits s -> after_first_c cs s ch = Ok (after_first_spec (ci_of cs) s [ch]).
+Proof. exact (after_first_c_spec cs s ch). Qed.
+Print Assumptions after_first_char.
+Theorem before_last_char cs s ch : fits s -> before_last_c cs s ch = Ok (before_last_spec (ci_of cs) s [ch]).
+Proof. exact (before_last_c_spec cs s ch). Qed.
+Print Assumptions before_last_char.
+Theorem after_last_char cs s ch : fits s -> after_last_c cs s ch = Ok (after_last_spec (ci_of cs) s [ch]).
+Proof. exact (after_last_c_spec cs s ch). Qed.
+Print Assumptions after_last_char.
+
+(* p : nullptr or an array with a NUL in it; it denotes the bytes before the first NUL *)
+Theorem before_first_cstr cs s p : fits s -> bytes_ok s = true -> cstr_arg_ok p ->
+  before_first_z cs s p = Ok (before_first_spec (ci_of cs) s (cstr_arg_content p)).
+Proof. exact (before_first_z_spec cs s p). Qed.
+Print Assumptions before_first_cstr.
+Theorem after_first_cstr cs s p : fits s -> bytes_ok s = true -> cstr_arg_ok p ->
+  after_first_z cs s p = Ok (after_first_spec (ci_of cs) s (cstr_arg_content p)).
+Proof. exact (after_first_z_spec cs s p). Qed.
+Print Assumptions after_first_cstr.
+Theorem before_last_cstr cs s p : fits s -> bytes_ok s = true -> cstr_arg_ok p ->
+  before_last_z cs s p = Ok (before_last_spec (ci_of cs) s (cstr_arg_content p)).
+Proof. exact (before_last_z_spec cs s p). Qed.
+Print Assumptions before_last_cstr.
+Theorem after_last_cstr cs s p : fits s -> bytes_ok s = true -> cstr_arg_ok p ->
+  after_last_z cs s p = Ok (after_last_spec (ci_of cs) s (cstr_arg_content p)).
+Proof. exact (after_last_z_spec cs s p). Qed.
+Print Assumptions after_last_cstr.
+
+Example separator_hypotheses_satisfiable :
+  bytes_ok a__b__c = true /\ bytes_ok dashes = true /\ ~ In 0 dashes /\
+  cstr_arg_ok (Some (dashes ++ [0])) /\ first_occ false dashes a__b__c = Some 1%nat /\
+  last_occ false dashes a__b__c = Some 4%nat.
+Proof. exact ex_hyps_sep. Qed.
+Example after_first_skips_the_separator : after_first_s CaseSensitive a__b__c dashes = Ok [98; 45; 45; 99].
+Proof. exact ex_after_first_s. Qed.
+
+(* ---- reassemble: before ++ occurrence ++ after = original ---- *)
+Theorem reassemble_at_first ci h sep i : first_occ ci sep h = Some i ->
+  before_first_spec ci h sep ++ occurrence h sep i ++ after_first_spec ci h sep = h /\
+  map (fold_c ci) (occurrence h sep i) = map (fold_c ci) sep.
+Proof. exact (reassemble_first ci h sep i). Qed.
+Print Assumptions reassemble_at_first.
+Theorem reassemble_at_last ci h sep i : last_occ ci sep h = Some i ->
+  before_last_spec ci h sep ++ occurrence h sep i ++ after_last_spec ci h sep = h /\
+  map (fold_c ci) (occurrence h sep i) = map (fold_c ci) sep.
+Proof. exact (reassemble_last ci h sep i). Qed.
+Print Assumptions reassemble_at_last.
+Theorem reassemble_case_sensitive h sep :
+  (forall i, first_occ false sep h = Some i -> before_first_spec false h sep ++ sep ++ after_first_spec false h sep = h) /\
+  (forall i, last_occ false sep h = Some i -> before_last_spec false h sep ++ sep ++ after_last_spec false h sep = h).
+Proof. exact (conj (reassemble_first_cs h sep) (reassemble_last_cs h sep)). Qed.
+Print Assumptions reassemble_case_sensitive.
+Theorem separator_absent ci h sep : first_occ ci sep h = None ->
+  before_first_spec ci h sep = h /\ after_first_spec ci h sep = [] /\
+  before_last_spec ci h sep = [] /\ after_last_spec ci h sep = h.
+Proof. exact (not_found_clauses ci h sep). Qed.
+Print Assumptions separator_absent.
+
+(* ---- the char, const char* and ST::string forms give identical results ---- *)
+Theorem overloads_agree_cstr_string cs s sep :
+  fits s -> bytes_ok s = true -> bytes_ok sep = true -> ~ In 0 sep ->
+  before_first_z cs s (Some (sep ++ [0])) = before_first_s cs s sep /\
+  after_first_z cs s (Some (sep ++ [0])) = after_first_s cs s sep /\
+  before_last_z cs s (Some (sep ++ [0])) = before_last_s cs s sep /\
+  after_last_z cs s (Some (sep ++ [0])) = after_last_s cs s sep.
+Proof. exact (overloads_agree_z_s cs s sep). Qed.
+Print Assumptions overloads_agree_cstr_string.
+Theorem overloads_agree_char_string cs s ch :
+  fits s -> bytes_ok s = true -> ch < 256 ->
+  before_first_c cs s ch = before_first_s cs s [ch] /\
+  after_first_c cs s ch = after_first_s cs s [ch] /\
+  before_last_c cs s ch = before_last_s cs s [ch] /\
+  after_last_c cs s ch = after_last_s cs s [ch].
+Proof. exact (overloads_agree_c_s cs s ch). Qed.
+Print Assumptions overloads_agree_char_string.
